@@ -330,7 +330,7 @@ def generate(rng, idx, tier, variant):
                     al[f'p{o_ + i}'] = rng.choice(names)
             spec['aliases'] = [[k_, v_] for k_, v_ in al.items()]
     elif fam == 'parser':
-        prog = scripts.gen_program(rng, max_eq=3, max_lag=1, max_lead=1)
+        prog = scripts.gen_program(rng, max_eq=3 if rng.random() < 0.97 else 12, max_lag=1, max_lead=1)  # (now and then a dozen equations)
         while prog['lags'] + prog['leads'] + 1 > n:
             n += 1
         spec['span']['n'] = n
@@ -1717,9 +1717,28 @@ def execute(schedule, ctx):
                     kw['trace'] = True
                 if 'submodels' in d:
                     kw.pop('errors', None)
+                iso = isolated_twin(fsic, x, party, spec) if party.fam == 'parser' else None
+                if iso is not None:
+                    # another instance of this very class, holding other data, is solved first (and thrown away)
+                    try:
+                        other = type(x)(__import__('copy').deepcopy(d['span']))
+                        for nm_ in other.__dict__['index']:
+                            if nm_ in d['index'] and other.__dict__['_' + nm_].dtype.kind == 'f' and other.__dict__['_' + nm_].shape == d['_' + nm_].shape:
+                                other.__dict__['_' + nm_][:] = d['_' + nm_] * 1.5 + 1.0
+                        other.solve(**dict(kw, failures='ignore', errors='ignore'))
+                        ctx.probe('sibling-with-other-data-solved-first')
+                    except Exception:
+                        pass
                 e = attempt(lambda: x.solve(**kw))
                 outcome = 'ok' if e is None else type(e).__name__
                 ctx.probe('solve-in-history')
+                if iso is not None:
+                    # the same state solved by an instance of a class built afresh from the same script - one that no other
+                    # object of this history has ever shared a class with - gives the same results
+                    e2 = attempt(lambda: iso.solve(**kw))
+                    same = type(e) is type(e2) and all(RC.arrays_equal(d['_' + nm_], iso.__dict__['_' + nm_]) for nm_ in d['index'])
+                    ctx.probe('solve-compared-with-an-isolated-class')
+                    ctx.check('C11', 'solve/results-depend-on-other-instances-of-the-class', same, {'outcome': type(e).__name__ if e else None, 'isolated': type(e2).__name__ if e2 else None, 'differs': [nm_ for nm_ in d['index'] if not RC.arrays_equal(d['_' + nm_], iso.__dict__['_' + nm_])][:4]})
                 party.sync()
             else:
                 outcome = 'skipped'
@@ -1842,6 +1861,34 @@ def check_backrefs(y, x_obs, ctx, prop, sig, unique=True):
                 # (a reindex onto a span in which a label occurs twice takes both periods from the first: section 3.x, C12)
                 now = O.obs(nested)
                 ctx.check(prop, sig + '/nested-copy-equals-the-source', now == x_obs, {'paths': O.diff(x_obs, now)[:4]})
+
+
+def isolated_twin(fsic, x, party, spec):
+    """An instance of a class built afresh from the workload's script, holding exactly the state of `x` (None if `x` has
+    grown variables the script does not declare)."""
+    import copy as _copy
+
+    d = x.__dict__
+    mdl = spec.get('model') or {}
+    if 'script' not in mdl:
+        return None
+    try:
+        cls = fsic.build_model(fsic.parse_model(mdl['script']), **(mdl.get('build') or {}))
+        y = cls(_copy.deepcopy(d['span']), strict=bool(d['_strict']), dtype=d['dtype']) if 'dtype' in d else cls(_copy.deepcopy(d['span']))
+    except Exception:
+        return None
+    yd = y.__dict__
+    if list(yd['index']) != list(d['index']) or any(yd['_' + nm].dtype != d['_' + nm].dtype or yd['_' + nm].shape != d['_' + nm].shape for nm in d['index']):
+        return None
+    for nm in d['index']:
+        yd['_' + nm][:] = d['_' + nm]
+    for key in ('lags', 'leads'):
+        if key in d:
+            yd[key] = d[key]
+    for key in ('check', 'endogenous'):
+        if isinstance(d.get(key), list):
+            yd[key] = list(d[key])
+    return y
 
 
 def attr_value(shape, v):
